@@ -21,4 +21,3 @@ MANIFEST = {
     "note": "Trusted: Lean kernel; monitor vocabulary; harness. Theorems quantify over all histories; the correspondence samples fault placements and schedules in synctest bubbles.",
     "technique": "Lean 4 proof over a history monitor with history correspondence against kgo x kfake in synctest bubbles",
 }
-PENDING = True
